@@ -24,3 +24,30 @@ pub use crate::stringclasses::StringClass;
 mod error;
 pub mod profile;
 pub mod stringclasses;
+
+/// Verification hooks (only compiled with `--cfg precis_verif`): thin
+/// re-exports of the private per-code-point predicates so that an external
+/// harness can compare them exhaustively with a formal model.
+#[cfg(precis_verif)]
+#[doc(hidden)]
+#[allow(missing_docs)]
+pub mod verif_hooks {
+    use crate::common;
+    use crate::DerivedPropertyValue;
+
+    macro_rules! pred {
+        ($($name:ident),*) => { $(pub fn $name(cp: u32) -> bool { common::$name(cp) })* };
+    }
+    pred!(
+        is_letter_digit, is_join_control, is_old_hangul_jamo, is_unassigned, is_ascii7,
+        is_control, is_precis_ignorable_property, is_space, is_symbol, is_punctuation,
+        is_other_letter_digit, has_compat, is_virama, is_greek, is_hebrew, is_hiragana,
+        is_katakana, is_han, is_dual_joining, is_left_joining, is_right_joining, is_transparent
+    );
+    pub fn get_exception_val(cp: u32) -> Option<DerivedPropertyValue> {
+        common::get_exception_val(cp).copied()
+    }
+    pub fn get_backward_compatible_val(cp: u32) -> Option<DerivedPropertyValue> {
+        common::get_backward_compatible_val(cp).copied()
+    }
+}
